@@ -2,7 +2,7 @@
    executed on two real connections; the C03 outcome monitor is evaluated on the
    implementation's own summaries.  Definitions only. *)
 From Coq Require Import FMapPositive.
-From Ship Require Import Base Closure Conn ConnEvents ConnMon ConnClosure Pair PairClosure.
+From Ship Require Import Base Closure Conn ConnEvents ConnMon ConnClosure Pair PairClosure PairPatient.
 
 (* after the label run, if both sides are complete on an open connection, the harness lets
    each side write a burst of SPINE datagrams back to back and then delivers them all:
@@ -32,13 +32,24 @@ Definition final_pair (cfg : pcfg) (ls : list label) : pair :=
   fold_left (pstep_or_stay cfg) ls (pair_init cfg).
 
 (* was some approval given while the server was pending and had not yet seen the client's
-   hello "ready"?  (the situation of the recorded finding) *)
+   hello "ready", or while a further hello of the client (the answer to a prolongation request)
+   was under way?  (the situation of the recorded finding) *)
 Fixpoint early_approval (cfg : pcfg) (p : pair) (ls : list label) : bool :=
   match ls with
   | [] => false
   | l :: r =>
-      (match l with LApprove => f_approves cfg && negb (u_done (core p)) && negb (approve_ok (core p)) | _ => false end)
+      (match l with LApprove => f_approves cfg && negb (u_done (core p)) && negb (approve_quiet p) | _ => false end)
       || early_approval cfg (pstep_or_stay cfg p l) r
+  end.
+
+(* did every timer expiry of the script only send a prolongation request (the pending server's
+   timer while waiting is allowed)?  Then no handshake timer "ran out" in the sense of C03. *)
+Fixpoint only_prolong_expiries (cfg : pcfg) (p : pair) (ls : list label) : bool :=
+  match ls with
+  | [] => true
+  | l :: r =>
+      (negb (is_timeout l) || prolong_expiry cfg p l)
+      && only_prolong_expiries cfg (pstep_or_stay cfg p l) r
   end.
 
 Definition V_PAIR_APPROVED_EARLY_FAILED : N := 70.
@@ -75,11 +86,16 @@ Definition pair_monitor (c : pair_case) : codes :=
       (if (o_compc o || o_comps o) && cancel_in_hello cfg (pair_init cfg) (pc_labels c) then [V_PAIR_COMPLETED_AFTER_CANCEL] else []))
       (pc_sums c) in
   let over := match timely_next false cfg (final_pair cfg (pc_labels c)) with [] => true | _ => false end in
+  (* the implementation's own last summary says both sides have ended with nothing under way,
+     and no timer ran out on the way: the run is over whatever the model thinks *)
+  let impl_ended (o : psum) :=
+    sum_both_ended o && match o_qcs o, o_qsc o with [], [] => true | _, _ => false end
+    && only_prolong_expiries cfg (pair_init cfg) (pc_labels c) in
   let outcome :=
     match rev (pc_sums c) with
     | [] => []
     | o :: _ =>
-        if negb over then [] else
+        if negb (over || impl_ended o) then [] else
         (if sum_both_complete_open o || sum_both_ended o then [] else [V_PAIR_DISAGREE]) ++
         (if implb (must_succeed cfg) (sum_both_complete_open o) then []
          else if early_approval cfg (pair_init cfg) (pc_labels c) then [V_PAIR_APPROVED_EARLY_FAILED]
